@@ -136,6 +136,9 @@ func (w *VerifWorld) note(err error) {
 
 // Send puts bytes into the connection's socket from the harness side (the peer wrote them).
 func (w *VerifWorld) Send(vc *VerifConn, data []byte) {
+	if vc.Peer < 0 {
+		return // the harness side was closed (HangUp)
+	}
 	for len(data) > 0 {
 		n, err := unix.Write(vc.Peer, data)
 		if err == unix.EPIPE || err == unix.ECONNRESET {
@@ -179,7 +182,7 @@ func (w *VerifWorld) Feed(vc *VerifConn, data []byte) {
 // Sent drains what the proxy wrote on the connection and returns the whole log so far.
 func (w *VerifWorld) Sent(vc *VerifConn) []byte {
 	var buf [512]byte
-	for {
+	for vc.Peer >= 0 {
 		n, err := unix.Read(vc.Peer, buf[:])
 		if n <= 0 || err != nil {
 			break
@@ -191,6 +194,9 @@ func (w *VerifWorld) Sent(vc *VerifConn) []byte {
 
 // PeerClosed reports whether the proxy has closed its end (EOF seen by the harness side).
 func (w *VerifWorld) PeerClosed(vc *VerifConn) bool {
+	if vc.Peer < 0 {
+		return false
+	}
 	w.Sent(vc)
 	var b [1]byte
 	n, err := unix.Read(vc.Peer, b[:])
@@ -203,7 +209,14 @@ func (w *VerifWorld) PeerClosed(vc *VerifConn) bool {
 
 // HangUp closes the harness side (the peer went away) and lets the proxy notice.
 func (w *VerifWorld) HangUp(vc *VerifConn) {
+	if vc.Peer < 0 {
+		return
+	}
+	w.Sent(vc) // keep what the proxy wrote so far
 	_ = unix.Close(vc.Peer)
+	// the kernel hands the descriptor number out again to the next socketpair: never touch it through
+	// this connection again
+	vc.Peer = -1
 	w.Readable(vc)
 }
 
@@ -253,6 +266,18 @@ func (vc *VerifConn) DoneHeadCount() int {
 		n++
 	}
 	return n
+}
+
+// QueueDone returns the completion flag of every request in the client's queue, oldest first.
+func (vc *VerifConn) QueueDone() []bool {
+	var out []bool
+	if vc.C.inMsgQueue == nil {
+		return out
+	}
+	for cur := vc.C.inMsgQueue.head; cur != nil; cur = cur.prev {
+		out = append(out, cur.Done)
+	}
+	return out
 }
 
 func (vc *VerifConn) OutboundBuffered() int {
@@ -306,4 +331,19 @@ func (w *VerifWorld) Probe(addr string) {
 	if sc := p.Get(); sc != nil {
 		_ = sc.WriteClusterNodes()
 	}
+}
+
+// Retopo installs a new topology the way the refresh loop does after a changed CLUSTER NODES reply
+// (the real setServer / setReplicaset, then serverChanged): masters[i] serves ranges[i]. The next
+// ticker run closes the pools of nodes that are gone and rebuilds the slot table.
+func (w *VerifWorld) Retopo(masters []string, ranges [][2]int) {
+	var nodes []*ClusterNode
+	for i, m := range masters {
+		nodes = append(nodes, &ClusterNode{Name: m, Addr: m, Role: Master, Connected: true,
+			Slots: []Slots{{Start: int32(ranges[i][0]), End: int32(ranges[i][1])}}})
+	}
+	cn := &EngineGlobal.ClusterNodes
+	cn.setServer(nodes)
+	cn.setReplicaset(nodes)
+	cn.serverChanged = true
 }
